@@ -31,7 +31,7 @@ ASSUMPTIONS = [
     "time: one model second = 100000 real seconds; fail()/succeed()/can_try()/is_down() are the real ones; the random window length fail() draws is checked against its range and replaced (hook) by the case's; a clock advance ages every policy's last_try (hook); Instant::now() jitter (<< 1 model second per case) cannot change an outcome",
     "connect outcomes are environment data: a non-blocking tcp connect to a loopback address answers Ok (EINPROGRESS), to 255.255.255.255 fails synchronously (ENETUNREACH in tcp_v4_connect); the driver re-checks this on every connect",
     "health checker: the real HealthChecker runs on a mio Poll against scripted loopback TCP servers (200, 503, close after accept, refuse, hang after accept, half a status line); its clock is aged by the case's `advance` through the cfg(sozu_verif) hook (started_at of the probes in flight, last_check_time), one model second = 100000 real seconds, so the per-cluster jitter on the interval (0 < jitter < interval/5) is strictly inside one model second (the driver checks this for the case's interval) and a round starts after interval+1 whole model seconds; the strict `elapsed > timeout` is `>=` on whole model seconds because real time has advanced by an instant; a backend that floods the reader (more than MAX_HEALTH_RESPONSE_SIZE, delivered in 256-byte reads per edge-triggered event) is in the model as an immediate failure but left out of the generated cases: when its verdict arrives depends on socket buffering, not on the checker; TLS / h2c probes are not exercised (plain HTTP/1.1 GET only)",
-    "LoadMetric::ConnectionTime (PeakEWMA, wall-clock data) is not modelled: with that metric the pick of LeastLoaded / PowerOfTwo is checked for membership in the candidate list only; the 65537-slot production Maglev table is modelled over a binary trie proved equal slot for slot to the list-based rebuild, and compared slot by slot with the real table in dedicated cases (the same rebuild code is compared slot by slot at table sizes 2..31)",
+    "LoadMetric::ConnectionTime: the cost (active_connections + 1) * rtt of peak_ewma_connection is modelled and the pick of LeastLoaded / PowerOfTwo compared exactly, with the decay of the estimate towards lower values over wall-clock time switched off (the driver sets the public field PeakEWMA::decay to infinity on every backend it creates: exp(-elapsed/decay) = 1, so observe() keeps the peak); connect times are case data reported through the real Backend::set_connection_time; the 65537-slot production Maglev table is modelled over a binary trie proved equal slot for slot to the list-based rebuild, and compared slot by slot with the real table in dedicated cases (the same rebuild code is compared slot by slot at table sizes 2..31)",
 ]
 TRUSTED = ["translator props/c12.py:translate reads facts, not spelling (comments and assertions stripped, functions found by name, named constants resolved, either operand order / operator or method form, locals free, one-level private helpers followed; a construct it cannot recognise is reported as `unreadable:` and the tie for that run is the correspondence check on the larger search batch, see TRANSLATE_FALLBACK); it compares DEFAULT_TABLE_SIZE, DEFAULT_WEIGHT, the max_tries of Backend::new, the bodies of can_open / is_available / the fail-open filter and the statements of ExponentialBackoffPolicy::{fail,can_try} with lib/src/{backends,load_balancing,retry}.rs, and for the health checker the order deadline-before-readiness-gate in progress_checks, the in-flight filter and the jittered-interval test of initiate_checks, and the address look-up / thresholds of record_check_result with lib/src/health_check.rs"]
 
@@ -463,7 +463,7 @@ class Gen:
         if kind == "maglev":
             size = r.choice(SIZES)
         self.kind[c] = kind
-        m = r.choice([0, 0, 1, 2, 3])      # 2: peak-EWMA connection time (pick checked for membership only), 3: default
+        m = r.choice([0, 0, 1, 2, 2, 3])   # 2: peak connection time cost (connections + 1) * rtt, 3: default
         self.timed[c] = m == 2 and kind in ("least", "p2c")
         self.ops.append(["policy", c, kind, m, size])
 
@@ -485,7 +485,7 @@ class Gen:
         if self.conn and r.random() < 0.22:
             # the entry points that select and then connect; only with a policy whose pick is not a random draw
             w = r.choice([1, 1, 2, 3, 5, 8])
-            det = self.kind[c] in ("rr", "least", "hrw", "maglev") and not self.timed[c]
+            det = self.kind[c] in ("rr", "least", "hrw", "maglev")
             y = r.random()
             if y < 0.4 and self.nh:
                 self.ops.append(["connect", self.handle(), w])
@@ -493,6 +493,10 @@ class Gen:
                 self.ops.append(["select_conn", c, w])
             elif det:
                 self.ops.append(["sticky_conn", c, r.choice(STICKY), w])
+            return
+        if self.nh and r.random() < (0.15 if any(self.timed) else 0.02):
+            # a connect time reported for a backend; with 1..4 connections these values tie: 2*50 = 1*100, 3*50 = 2*75 = 1*150
+            self.ops.append(["rtt", self.handle(), r.choice([1, 40, 50, 50, 75, 100, 150, 300]) * 1000000])
             return
         if x < 0.25:
             self.select(c)
@@ -719,8 +723,8 @@ LEVEL_TEXT = ("Machine-checked proof (Coq 8.16) over an executable model of Back
               "differential correspondence run of the real BackendMap against the extracted model, with the property's "
               "own oracle evaluated on the implementation.")
 LEVEL_NOTE = ("Trusted: Coq kernel; extraction + ocaml/driver.ml for the correspondence only; hash values and HRW "
-              "scores are data read from the real code; the health checker's network is scripted loopback servers and its clock is aged through a hook (what a probe's socket does under real network loss / TLS is not covered); Random/PowerOfTwo draws compared by membership; PeakEWMA metric not "
-              "modelled (membership only); what the session code does to the "
+              "scores are data read from the real code; the health checker's network is scripted loopback servers and its clock is aged through a hook (what a probe's socket does under real network loss / TLS is not covered); Random/PowerOfTwo draws compared by membership; the PeakEWMA cost is modelled without "
+              "its wall-clock decay; what the session code does to the "
               "backend it was given (inc/dec/fail/succeed call sites) is checked black-box through a real worker and "
               "the backend snapshot hook, not proved.")
 TECHNIQUE = "Rocq/Coq proof over an executable Gallina model + differential correspondence (extracted OCaml vs real crate)"
